@@ -44,7 +44,7 @@ SERIAL = os.environ.get("VERIF_TIER") == "quick"
 # element domains for SortedSet
 # ----------------------------------------------------------------------------
 
-DOMS = ("int", "tuple", "list", "str", "sset", "sset", "sset2")      # dicts are unorderable: outside "any single comparable type"
+DOMS = ("int", "tuple", "list", "str", "sset", "sset2")      # dicts are unorderable: outside "any single comparable type"
 HASHABLE = ("int", "tuple", "str")
 TOTAL = ("int", "tuple", "list", "str")
 NESTED = ("sset", "sset2")
@@ -832,6 +832,6 @@ def interpret_map(case, ctx):
 
 def parts(tier):
     return [
-        hyp_part("sortedset", s_sortedset_case, interpret_sortedset, tier, quick=1000, thorough=8000, quick_shards=2),
+        hyp_part("sortedset", s_sortedset_case, interpret_sortedset, tier, quick=1400, thorough=8000, quick_shards=2),
         hyp_part("map", s_map_case, interpret_map, tier, quick=800, thorough=6000, quick_shards=2, thorough_shards=8),
     ]
